@@ -39,7 +39,23 @@ def setup():
     return 0
 
 
+def _cap_memory():
+    """A runaway implementation (e.g. a changed loader that recurses or duplicates without bound) must end
+    in MemoryError inside this process — reported like any other failure of the implementation — instead of
+    exhausting the machine.  VERIF_MEM_GB overrides the cap (address space, per process)."""
+    try:
+        import resource
+        lim = int(os.environ.get("VERIF_MEM_GB", "20")) * (1 << 30)
+        soft, hard = resource.getrlimit(resource.RLIMIT_AS)
+        if hard != resource.RLIM_INFINITY:
+            lim = min(lim, hard)
+        resource.setrlimit(resource.RLIMIT_AS, (lim, hard))
+    except (ImportError, ValueError, OSError):
+        pass
+
+
 def main(argv):
+    _cap_memory()
     if not argv:
         print(__doc__)
         return 2
